@@ -59,6 +59,14 @@ def measured_case(seed):
     f = 10 ** rng.uniform(-1, 2)
     comp = {i: v * f for i, v in comp.items()}
     kind = rng.choice(['TP', 'TP', 'TV', 'PV', 'PH', 'PS', 'TP', 'TP', 'TV', 'PV', 'PH', 'PS', 'TH', 'TS', 'xy', 'xy', 'xy'])
+    if rng.random() < 0.08:
+        # directed: ONE volatile chemical with a non-volatile solute (and sometimes gas) under an enthalpy / entropy specification
+        # (the single-chemical shortcuts of the solver with other material present)
+        one = rng.choice(ids)
+        comp = {one: comp[one], 'Glucose': f * 0.03 * (0.2 + rng.random())}
+        if rng.random() < 0.3:
+            comp['N2'] = f * 0.01 * rng.random()
+        kind = rng.choice(['PH', 'PH', 'PS', 'TH'])
     if kind == 'xy':
         kind = rng.choice(['Tx', 'Ty', 'Px', 'Py'])
         comp = {i: comp[i] for i in sorted(comp)[:2]} if len([i for i in comp if i not in ('N2', 'Glucose')]) >= 2 else comp
@@ -66,7 +74,7 @@ def measured_case(seed):
         if len(comp) != 2:
             kind = 'TP'
     obs = df.measured(fam, ideal, comp, kind, rng.random(), rng.random(), rng.choice([1e-3, 50., 3.]))
-    return dict(op='measured', a=dict(family=fam, ideal=ideal, kind=kind, ids=sorted(comp), tol=1000, hstol=100000 if kind in ('TH', 'TS') else 1000, htol=10000 if kind in ('TP', 'PH') else 100000, ftol=100000, w=[0] * n, T=1, P=1),
+    return dict(op='measured', a=dict(family=fam, ideal=ideal, kind=kind, ids=sorted(comp), tol=1000, hstol=100000 if kind in ('TH', 'TS') else 1000, htol=10000 if kind in ('TP', 'PH') else 100000, stol=100000 if kind[1] in 'HS' else 1000, ftol=100000, w=[0] * n, T=1, P=1),
                 post=dict(w=[0] * n, c=[1, 1]), obs=obs, job=['measured_case', seed])
 
 
